@@ -36,6 +36,8 @@ REQUIRED_CLASSES = {t: ["mock", "ladder", "drift-twin"] for t in ("quick", "thor
 def case_strategy(draw):
     kind = draw(st.sampled_from(["mock", "mock", "mock", "ladder"]))
     sigma = 10.0 ** draw(st.floats(math.log10(0.02), 0.0))
+    if draw(st.integers(0, 3)) == 0:
+        sigma = draw(st.floats(0.5, 1.0))  # the noisy end, where over-parametrised fits start to look smooth
     seed = draw(st.integers(0, 2**31 - 1))
     if kind == "mock":
         i = draw(st.integers(1, 19))
@@ -83,5 +85,5 @@ def all_twins(ctx):
 def parts(ctx):
     return [
         Part("drift-twins", body, items=all_twins, exhaustive=True, budget_s={"quick": 200, "thorough": 600}, case_timeout_s=180),
-        Part("noise", body, strategy=case_strategy(), n={"quick": 40, "thorough": 1500}, budget_s={"quick": 200, "thorough": 3000}, case_timeout_s=180),
+        Part("noise", body, strategy=case_strategy(), n={"quick": 160, "thorough": 1500}, budget_s={"quick": 200, "thorough": 3000}, case_timeout_s=180),
     ]
